@@ -3,11 +3,14 @@ package fullstack
 import (
 	"context"
 	"fmt"
+	"os"
+	"strings"
 	"sync"
 	"testing"
 	"time"
 
 	"github.com/ipfs/go-cid"
+	"github.com/libp2p/go-libp2p/core/peer"
 
 	"github.com/ipfs/go-graphsync"
 	gsimpl "github.com/ipfs/go-graphsync/impl"
@@ -78,6 +81,12 @@ func TestC23(t *testing.T) {
 		rep.Journal("case %d nreq=%d wOut=%d wIn=%d", ci, nreq, wOut, wIn)
 		w := NewWorld()
 		pert := NewPerturber(r.Int63(), 1)
+		slowStart := r.Intn(3) == 0
+		rejectAll := os.Getenv("VERIF_C23_REJECT") != ""
+		if slowStart {
+			// widen the window between a worker popping a task and the manager starting it
+			pert.Pin("tq.beforeExecute", time.Duration(2+r.Intn(6))*time.Millisecond)
+		}
 		sa := store.New("A.store", w.Log)
 		A := w.AddGS("A", sa, NodeOpts{Options: []gsimpl.Option{gsimpl.MaxInProgressOutgoingRequests(wOut)}, Workers: wOut})
 		nresp := 1 + r.Intn(2)
@@ -108,6 +117,66 @@ func TestC23(t *testing.T) {
 			}
 		}
 		reqs := make([]*Req, nreq)
+		// hook-driven pauses: request i is paused by the requestor (incoming block hook) or by the
+		// responder (outgoing block hook) at its k-th block, once
+		reqPauseAt := map[cid.Cid]int{}
+		respPauseAt := map[cid.Cid]int{}
+		for i := range dags {
+			switch r.Intn(4) {
+			case 0:
+				reqPauseAt[dags[i].Root] = r.Intn(3)
+			case 1:
+				respPauseAt[dags[i].Root] = r.Intn(3)
+			}
+		}
+		var hmu sync.Mutex
+		seenIn := map[graphsync.RequestID]int{}
+		seenOut := map[graphsync.RequestID]int{}
+		rootOf := map[graphsync.RequestID]cid.Cid{}
+		arrived := map[cid.Cid]chan struct{}{}
+		for i := range dags {
+			arrived[dags[i].Root] = make(chan struct{})
+		}
+		A.OnOutgoingReq = func(p peer.ID, rq graphsync.RequestData, a graphsync.OutgoingRequestHookActions) {
+			hmu.Lock()
+			rootOf[rq.ID()] = rq.Root()
+			hmu.Unlock()
+		}
+		A.OnIncomingBlock = func(p peer.ID, rs graphsync.ResponseData, b graphsync.BlockData, a graphsync.IncomingBlockHookActions) {
+			hmu.Lock()
+			defer hmu.Unlock()
+			k, ok := reqPauseAt[rootOf[rs.RequestID()]]
+			if ok && seenIn[rs.RequestID()] == k {
+				a.PauseRequest()
+			}
+			seenIn[rs.RequestID()]++
+		}
+		for _, B := range Bs {
+			B.OnRequest = func(p peer.ID, rq graphsync.RequestData, a graphsync.IncomingRequestHookActions) {
+				if !rejectAll {
+					a.ValidateRequest()
+				}
+				hmu.Lock()
+				ch := arrived[rq.Root()]
+				hmu.Unlock()
+				if ch != nil {
+					select {
+					case <-ch:
+					default:
+						close(ch)
+					}
+				}
+			}
+			B.OnOutgoingBlock = func(p peer.ID, rq graphsync.RequestData, b graphsync.BlockData, a graphsync.OutgoingBlockHookActions) {
+				hmu.Lock()
+				defer hmu.Unlock()
+				k, ok := respPauseAt[rq.Root()]
+				if ok && seenOut[rq.ID()] == k {
+					a.PauseResponse()
+				}
+				seenOut[rq.ID()]++
+			}
+		}
 		var trace []string
 		snapshots := 0
 		var viol string
@@ -151,70 +220,104 @@ func TestC23(t *testing.T) {
 		}
 		nsteps := 6 + r.Intn(12)
 		ctx, cancel := context.WithTimeout(context.Background(), 120*time.Second)
+		stateOf := func(i int) (out, in string) {
+			out, in = "none", "none"
+			if reqs[i] == nil {
+				return "unstarted", "unstarted"
+			}
+			if st, ok := A.Impl.PeerState(Bs[resp[i]].ID).OutgoingState.RequestStates[reqs[i].ID]; ok {
+				out = st.String()
+			}
+			if st, ok := Bs[resp[i]].Impl.PeerState(A.ID).IncomingState.RequestStates[reqs[i].ID]; ok {
+				in = st.String()
+			}
+			return
+		}
 		for s := 0; s < nsteps && viol == ""; s++ {
-			i := r.Intn(nreq)
-			switch x := r.Intn(15); {
-			case x == 10:
-				if reqs[i] != nil {
-					_ = A.GS.Pause(ctx, reqs[i].ID)
-					trace = append(trace, fmt.Sprintf("requestor-pause(%d)", i))
+			// state-directed choice: draw (request, op) until the op applies to the request's reported state
+			op, i := "", 0
+			for try := 0; try < 12 && op == ""; try++ {
+				i = r.Intn(nreq)
+				out, in := stateOf(i)
+				rep.SetAdd("states_at_choice", "requestor:"+out+"/responder:"+in)
+				var cands []string
+				switch {
+				case out == "unstarted":
+					cands = []string{"start-held", "start-held", "start", "start-then-cancel"}
+				case out == "queued":
+					cands = []string{"ctx-cancel", "requestor-cancel", "release-any"}
+				case out == "paused":
+					cands = []string{"requestor-unpause", "requestor-unpause", "ctx-cancel", "requestor-cancel"}
+				case out == "running" && in == "paused":
+					cands = []string{"responder-unpause", "responder-unpause", "responder-cancel", "ctx-cancel"}
+				case out == "running":
+					cands = []string{"release", "release", "requestor-pause", "responder-pause", "ctx-cancel", "requestor-cancel", "responder-cancel", "send-error"}
+				default: // ended on the requestor
+					if in != "none" {
+						cands = []string{"release", "responder-unpause", "responder-cancel"}
+					}
 				}
-			case x == 11:
-				if reqs[i] != nil {
-					_ = A.GS.Unpause(ctx, reqs[i].ID)
-					trace = append(trace, fmt.Sprintf("requestor-unpause(%d)", i))
+				if len(cands) > 0 {
+					op = cands[r.Intn(len(cands))]
 				}
-			case x == 12:
-				if reqs[i] != nil {
-					_ = Bs[resp[i]].GS.Cancel(ctx, reqs[i].ID)
-					trace = append(trace, fmt.Sprintf("responder-cancel(%d)", i))
+			}
+			if op == "" {
+				break
+			}
+			b := resp[i]
+			switch op {
+			case "start-then-cancel":
+				// start and cancel as soon as the responder has seen the request: the cancel races the
+				// responder's worker picking the task up
+				reqs[i] = w.Request(A, Bs[b].ID, dags[i].Root, gen.AllSelector())
+				select {
+				case <-arrived[dags[i].Root]:
+				case <-time.After(5 * time.Second):
 				}
-			case x == 13:
-				if reqs[i] != nil {
-					_ = A.GS.Cancel(ctx, reqs[i].ID)
-					trace = append(trace, fmt.Sprintf("requestor-cancel(%d)", i))
-				}
-			case x == 14:
+				reqs[i].Cancel()
+			case "start-held", "start":
+				gates[b].set(i, op == "start-held")
+				reqs[i] = w.Request(A, Bs[b].ID, dags[i].Root, gen.AllSelector())
+			case "release":
+				gates[b].set(i, false)
+			case "release-any":
+				j := r.Intn(nreq)
+				gates[resp[j]].set(j, false)
+				op = fmt.Sprintf("release-any[%d]", j)
+			case "ctx-cancel":
+				reqs[i].Cancel()
+			case "requestor-pause":
+				_ = A.GS.Pause(ctx, reqs[i].ID)
+			case "requestor-unpause":
+				_ = A.GS.Unpause(ctx, reqs[i].ID)
+			case "requestor-cancel":
+				_ = A.GS.Cancel(ctx, reqs[i].ID)
+			case "responder-pause":
+				_ = Bs[b].GS.Pause(ctx, reqs[i].ID)
+			case "responder-unpause":
+				_ = Bs[b].GS.Unpause(ctx, reqs[i].ID)
+			case "responder-cancel":
+				_ = Bs[b].GS.Cancel(ctx, reqs[i].ID)
+			case "send-error":
 				// the next send of this responder towards A fails once (network error path)
-				b := resp[i]
 				var once sync.Once
 				w.Fab.Link(Bs[b].ID, A.ID).SetSendErr(func(n int, m gsmsg.GraphSyncMessage) (err error) {
 					once.Do(func() { err = fmt.Errorf("verif: injected send failure") })
 					return err
 				})
-				trace = append(trace, fmt.Sprintf("send-error(B%d->A)", b))
-			case x < 4:
-				if reqs[i] == nil {
-					if r.Intn(3) > 0 {
-						gates[resp[i]].set(i, true)
+			}
+			rep.SetAdd("ops_used", op[:min(len(op), 17)])
+			trace = append(trace, fmt.Sprintf("%s(%d->B%d)", op, i, b))
+			snapshot(fmt.Sprintf("after step %d (last op %s)", s, trace[len(trace)-1]))
+			if viol == "" {
+				for j := range reqs {
+					out, in := stateOf(j)
+					rep.SetAdd("states_at_snapshots", "requestor:"+out+"/responder:"+in)
+					if os.Getenv("VERIF_C23_DEBUG") != "" && out == "running" && in == "none" {
+						rep.Journal("DEBUG case %d req %d running/none after %v\n%s", ci, j, trace, strings.Join(w.Log.Tail(60), "\n"))
 					}
-					reqs[i] = w.Request(A, Bs[resp[i]].ID, dags[i].Root, gen.AllSelector())
-					trace = append(trace, fmt.Sprintf("start(%d->B%d)", i, resp[i]))
-				}
-			case x < 6:
-				gates[resp[i]].set(i, false)
-				trace = append(trace, fmt.Sprintf("release(%d)", i))
-			case x < 8:
-				if reqs[i] != nil {
-					reqs[i].Cancel()
-					trace = append(trace, fmt.Sprintf("ctx-cancel(%d)", i))
-				}
-			case x < 9:
-				if reqs[i] != nil {
-					_ = Bs[resp[i]].GS.Pause(ctx, reqs[i].ID)
-					trace = append(trace, fmt.Sprintf("responder-pause(%d)", i))
-				}
-			default:
-				if reqs[i] != nil {
-					_ = Bs[resp[i]].GS.Unpause(ctx, reqs[i].ID)
-					trace = append(trace, fmt.Sprintf("responder-unpause(%d)", i))
 				}
 			}
-			last := "no-op"
-			if len(trace) > 0 {
-				last = trace[len(trace)-1]
-			}
-			snapshot(fmt.Sprintf("after step %d (last op %s)", s, last))
 		}
 		// end of history: release everything, resume paused responses, let every request end
 		for _, g := range gates {
@@ -259,7 +362,7 @@ func TestC23(t *testing.T) {
 		cancel()
 		rep.Eval()
 		detail := func() map[string]any {
-			return map[string]any{"case": ci, "requests": nreq, "outgoing_workers": wOut, "incoming_workers": wIn, "responders": nresp, "history": trace, "snapshots": snapshots, "event_log_tail": w.Log.Tail(50)}
+			return map[string]any{"case": ci, "requests": nreq, "outgoing_workers": wOut, "incoming_workers": wIn, "responders": nresp, "slow_task_start": slowStart, "history": trace, "snapshots": snapshots, "event_log_tail": w.Log.Tail(50)}
 		}
 		switch {
 		case len(viol) > 13 && viol[:13] == "inconclusive:":
